@@ -347,6 +347,23 @@ func (r *runner) lifeClosed() {
 func (r *runner) lifeRace() {
 	db := r.db
 	r.releaseHandles()
+	// keys that are certainly present when the race starts; the racing
+	// clients only put, so a Get that answers at all must find them
+	present := map[string]bool{}
+	{
+		v := View{M: r.model, N: r.model.Len()}
+		for _, k := range r.model.keys {
+			sure := true
+			for _, c := range v.chain(k) {
+				if c.del {
+					sure = false
+				}
+			}
+			if sure {
+				present[string(k)] = true
+			}
+		}
+	}
 	var wg simrt.WaitGroup
 	for ci := 1; ci < len(r.c.Clients); ci++ {
 		ci := ci
@@ -362,13 +379,23 @@ func (r *runner) lifeRace() {
 						r.viol("closed", "closed:race-put", fmt.Sprintf("Put racing Close returned %v", err))
 					}
 				case "get":
+					if i%3 == 2 {
+						if ok, e := db.Has(op.Key, nil); e == nil && !ok && present[string(op.Key)] {
+							r.viol("closed", "closed:race-get-notfound", fmt.Sprintf("Has(%q) racing Close reported false for a key that was present all along", []byte(op.Key)))
+						}
+						break
+					}
 					v, err := db.Get(op.Key, nil)
 					switch err {
 					case nil:
 						if _, ok := r.valIDAny(v); !ok {
 							r.viol("closed", "closed:race-get-garbage", fmt.Sprintf("Get racing Close returned bytes never written: %s", descVal(true, v)))
 						}
-					case leveldb.ErrNotFound, leveldb.ErrClosed:
+					case leveldb.ErrNotFound:
+						if present[string(op.Key)] {
+							r.viol("closed", "closed:race-get-notfound", fmt.Sprintf("Get(%q) racing Close reported not-found for a key that was present all along (it must answer correctly or with the closed error)", []byte(op.Key)))
+						}
+					case leveldb.ErrClosed:
 					default:
 						// while Close tears the table cache down a read may
 						// also surface the reader's own "released" error
@@ -379,7 +406,12 @@ func (r *runner) lifeRace() {
 				case "snap":
 					s, err := db.GetSnapshot()
 					if err == nil {
-						s.Get(op.Key, nil)
+						if _, e := s.Get(op.Key, nil); e == leveldb.ErrNotFound && present[string(op.Key)] {
+							r.viol("closed", "closed:race-get-notfound", fmt.Sprintf("Snapshot.Get(%q) racing Close reported not-found for a key that was present all along", []byte(op.Key)))
+						}
+						if ok, e := s.Has(op.Key, nil); e == nil && !ok && present[string(op.Key)] {
+							r.viol("closed", "closed:race-get-notfound", fmt.Sprintf("Snapshot.Has(%q) racing Close reported false for a key that was present all along", []byte(op.Key)))
+						}
 						s.Release()
 					} else if err != leveldb.ErrClosed {
 						r.viol("closed", "closed:race-snapshot", fmt.Sprintf("GetSnapshot racing Close returned %v", err))
